@@ -417,11 +417,63 @@ func (c *Ctx) ruleR09b(rule string) {
 
 func (c *Ctx) ruleR09c(rule string) {
 	c.R.Rule(rule, "the pattern cache compiles '^(?:'+expr+')', is read and written under that same expr, and rejects patterns matching the empty input", 3)
-	var fn *ssa.Function
-	for _, f := range c.readerFns() {
+	isCompile := func(call ssa.CallInstruction) bool {
+		sc := call.Common().StaticCallee()
+		return sc != nil && sc.Pkg != nil && sc.Pkg.Pkg.Path() == "regexp" && (sc.Name() == "MustCompile" || sc.Name() == "Compile")
+	}
+	compileIn := func(f *ssa.Function) *ssa.Call {
+		var out *ssa.Call
 		for _, call := range ssax.Calls(f) {
-			if sc := call.Common().StaticCallee(); sc != nil && sc.Pkg != nil && sc.Pkg.Pkg.Path() == "regexp" && (sc.Name() == "MustCompile" || sc.Name() == "Compile") {
-				fn = f
+			if cl, ok := call.(*ssa.Call); ok && isCompile(call) {
+				out = cl
+			}
+		}
+		return out
+	}
+	// the caching function: the reader method that compiles, directly or through a library helper returning the
+	// compiled pattern
+	var fn, cfn *ssa.Function // cache function, compiling function
+	var compile *ssa.Call     // the regexp compile call (in cfn)
+	var compiled ssa.Value    // the compiled pattern as the cache function sees it
+	var viaArg ssa.Value      // the helper's expression argument at the call in fn
+	var viaParam ssa.Value    // the helper's corresponding parameter
+	for _, f := range c.readerFns() {
+		if cl := compileIn(f); cl != nil {
+			fn, cfn, compile, compiled = f, f, cl, cl
+			break
+		}
+	}
+	if fn == nil {
+		for _, f := range c.readerFns() {
+			for _, call := range ssax.Calls(f) {
+				h := call.Common().StaticCallee()
+				hc, isVal := call.(*ssa.Call)
+				if h == nil || !isVal || call.Common().IsInvoke() || !c.P.InLib(h) || len(h.Blocks) == 0 || h.Signature.Results().Len() != 1 {
+					continue
+				}
+				cl := compileIn(h)
+				if cl == nil {
+					continue
+				}
+				all := true
+				for _, r := range ssax.Returns(h) {
+					if ssax.Strip(r.Results[0]) != ssa.Value(cl) {
+						all = false
+					}
+				}
+				if !all {
+					continue
+				}
+				fn, cfn, compile, compiled = f, h, cl, hc
+				for _, pt := range concatParts(cl.Call.Args[0]) {
+					if pp, ok := pt.(*ssa.Parameter); ok {
+						for i, hp := range h.Params {
+							if hp == pp && i < len(hc.Call.Args) {
+								viaArg, viaParam = hc.Call.Args[i], pp
+							}
+						}
+					}
+				}
 			}
 		}
 	}
@@ -430,14 +482,6 @@ func (c *Ctx) ruleR09c(rule string) {
 		return
 	}
 	name := c.name(fn)
-	var compile *ssa.Call
-	for _, call := range ssax.Calls(fn) {
-		if sc := call.Common().StaticCallee(); sc != nil && sc.Pkg != nil && sc.Pkg.Pkg.Path() == "regexp" {
-			if cl, ok := call.(*ssa.Call); ok && (sc.Name() == "MustCompile" || sc.Name() == "Compile") {
-				compile = cl
-			}
-		}
-	}
 	// argument: const + param + const
 	parts := concatParts(compile.Call.Args[0])
 	okShape := false
@@ -465,6 +509,13 @@ func (c *Ctx) ruleR09c(rule string) {
 		c.R.Violation(rule, name+" pattern not anchored as a whole", name, c.P.InstrPos(compile), "the compiled pattern is not '^(?:' + expr + ')': with a top-level alternation only the first alternative is anchored at the cursor, and a later alternative can match further on in the input")
 	}
 	// cache key
+	if viaParam != nil {
+		if exprParam == viaParam {
+			exprParam = viaArg // the expression as the caching function names it
+		} else {
+			exprParam = nil
+		}
+	}
 	okKey := exprParam != nil
 	nKey := 0
 	for _, b := range fn.Blocks {
@@ -480,7 +531,7 @@ func (c *Ctx) ruleR09c(rule string) {
 			case *ssa.MapUpdate:
 				if _, f, ok := fieldLoad(x.Map); ok && f == c.model().ReaderCache {
 					nKey++
-					if x.Key != exprParam || ssax.Strip(x.Value) != ssa.Value(compile) {
+					if x.Key != exprParam || ssax.Strip(x.Value) != compiled {
 						okKey = false
 					}
 				}
@@ -494,7 +545,7 @@ func (c *Ctx) ruleR09c(rule string) {
 	}
 	// empty-match rejection
 	okEmpty := false
-	for _, b := range fn.Blocks {
+	for _, b := range append(append([]*ssa.BasicBlock{}, cfn.Blocks...), fn.Blocks...) {
 		if len(b.Instrs) == 0 {
 			continue
 		}
@@ -503,7 +554,7 @@ func (c *Ctx) ruleR09c(rule string) {
 		}
 		for _, cd := range ssax.DominatingConds(b) {
 			if cl, ok := cd.Val.(*ssa.Call); ok && cd.Truth {
-				if sc := cl.Call.StaticCallee(); sc != nil && sc.Name() == "Match" && len(cl.Call.Args) == 2 && ssax.IsNilConst(cl.Call.Args[1]) && cl.Call.Args[0] == ssa.Value(compile) {
+				if sc := cl.Call.StaticCallee(); sc != nil && sc.Name() == "Match" && len(cl.Call.Args) == 2 && ssax.IsNilConst(cl.Call.Args[1]) && (cl.Call.Args[0] == ssa.Value(compile) || cl.Call.Args[0] == compiled) {
 					okEmpty = true
 				}
 			}
